@@ -16,7 +16,14 @@ class Iter:
 INTS = [-2, -1, 0, 1, 2, 3, 5]
 STRS = ['a', 'b', 'ab', '', 'c']
 KEYS = ['a', 'b', 'c']
-PROFILES = ['ints', 'ints', 'ints', 'strs', 'dicts', 'pairs', 'nested', 'mixed', 'intsnull']
+# values that are equal as dict keys / set elements (==, hash) but are different values
+TWINS = [1, 1.0, True, 0, 0.0, False, 1, 1.0, True, 2, 2.0, 2.5, 0.5, 'a', 'a', None, -1, -1.0]
+FLOATS = [0.0, 1.0, 2.0, 0.5, 2.5, -1.0, -0.5]
+# nestdup: lists of small lists with REPEATED inner lists and empty ones among the non-empty;
+# twins: 1 / 1.0 / true, 0 / 0.0 / false, ... side by side; nesttwins: inner lists of those
+NEST_PROFILES = ['nestdup', 'nestdup', 'nesttwins', 'twins']
+PROFILES = ['ints', 'ints', 'ints', 'strs', 'dicts', 'pairs', 'nested', 'mixed', 'intsnull', 'nestdup', 'nestdup',
+            'nesttwins', 'twins']
 
 
 def scalar(rng):
@@ -42,6 +49,12 @@ def elem(rng, profile, depth=0):
         return FD((k, rng.choice(INTS) if rng.random() < 0.8 else scalar(rng)) for k in ks)
     if profile == 'pairs':
         return (rng.choice(STRS + INTS[:3]), rng.choice(INTS))
+    if profile == 'twins':
+        return rng.choice(TWINS)
+    if profile == 'nestdup':
+        return tuple(rng.choice(INTS) for _ in range(rng.choice([0, 1, 1, 2, 2, 3])))
+    if profile == 'nesttwins':
+        return tuple(rng.choice(TWINS) for _ in range(rng.choice([0, 1, 1, 1, 2, 3])))
     if profile == 'nested':
         if depth < 2 and rng.random() < 0.6:
             return tuple(elem(rng, 'nested', depth + 1) for _ in range(rng.randrange(0, 4)))
@@ -63,10 +76,35 @@ def hashable(v):
         return False
 
 
+def twin_of(v):
+    """an equal value of another type, where there is one (elementwise for a list)"""
+    if isinstance(v, tuple):
+        return tuple(twin_of(x) for x in v)
+    for group in ((1, 1.0, True), (0, 0.0, False), (2, 2.0), (-1, -1.0)):
+        for i, g in enumerate(group):
+            if type(g) is type(v) and g == v:
+                return group[(i + 1) % len(group)]
+    return v
+
+
 def elems(rng, profile, n):
+    if profile in ('nestdup', 'nesttwins') and n >= 2:
+        # few distinct inner lists, repeated; an empty one among them most of the time; sometimes a twin
+        pool = [elem(rng, profile) for _ in range(rng.choice([1, 2, 2, 3]))]
+        if rng.random() < 0.6:
+            pool.append(())
+        xs = [rng.choice(pool) for _ in range(n)]
+        if rng.random() < 0.35:
+            i = rng.randrange(n)
+            xs[i] = twin_of(xs[rng.randrange(n)])
+        if rng.random() < 0.3:
+            xs[rng.randrange(n)] = elem(rng, profile)
+        return xs
     xs = [elem(rng, profile) for _ in range(n)]
     if n >= 2 and rng.random() < 0.5:          # duplicates
         xs[rng.randrange(n)] = xs[rng.randrange(n)]
+    if profile == 'twins' and n >= 2 and rng.random() < 0.5:
+        xs[rng.randrange(n)] = twin_of(xs[rng.randrange(n)])
     return xs
 
 
@@ -100,10 +138,113 @@ def small(rng):
     return rng.choice([-1, 0, 1, 2, 3])
 
 
+def inner_pred(rng):
+    """a predicate on the members of an inner list"""
+    return rng.choice([['gt', ARG, small(rng)], ['gt', ARG, 1], ['eq', ['mod', ARG, 2], rng.choice([0, 1])], ARG,
+                       ['eq', ARG, rng.choice([1, 0, 2, True])], ['not', ['gt', ARG, 0]], ['const', True]])
+
+
+def inner_sel(rng):
+    return rng.choice([['mul', ARG, rng.choice([2, 10, -1])], ['add', ARG, 1], ['str', ARG], ['half', ARG], ARG,
+                       ['pair', ARG, ARG], ['gt', ARG, 0], ['mod', ARG, rng.choice([2, 0])]])
+
+
+def opt_const(rng, p=0.5):
+    """the optional default of first() / last()"""
+    return [rng.choice([0, None, 'd', 1.0])] if rng.random() < p else []
+
+
+def nest_lam(rng, role, scalars=False):
+    """lambdas for elements that are lists themselves (nestdup / nesttwins) - or, with scalars=True, for
+    1 / 1.0 / true side by side.  Some return a LAZY sequence (where / select / take / range)."""
+    if scalars:
+        base = ARG
+        if role == 'pred':
+            return rng.choice([['gt', base, small(rng)], ['eq', base, rng.choice(TWINS)], base, ['not', base],
+                               ['eq', ['str', base], rng.choice(['1', '1.0', 'true', 'a'])], ['gt', ['half', base], 0],
+                               ['eq', ['mod', base, 2], rng.choice([0, 1])], ['range', base]])
+        if role == 'key':
+            return rng.choice([base, base, ['str', base], ['half', base], ['eq', base, rng.choice([1, 0])],
+                               ['mod', base, 2], ['pair', base, ['str', base]], ['mul', base, rng.choice([1, 2, 0])],
+                               ['add', base, rng.choice([0, 1])]])
+        return rng.choice([['str', base], ['half', base], ['add', base, small(rng)], ['mul', base, small(rng)],
+                           ['mod', base, rng.choice([2, 3, -2, 0])], ['range', base], base, ['pair', base, ['str', base]],
+                           ['eq', base, rng.choice([1, 0, 2.5])], ['gt', base, small(rng)], ['not', base]])
+    head = rng.choice([['index', ARG, 0], ['index', ARG, 0], ['first', ARG, []], ['first', ARG, opt_const(rng, 1)],
+                       ['last', ARG, opt_const(rng)], ['single', ARG], ['index', ARG, rng.choice([-1, 1])]])
+    count = rng.choice([['len', ARG], ['len', ARG], ['sum', ARG], ['len', ['where', ARG, inner_pred(rng)]],
+                        ['sum', ['select', ARG, ['mul', ARG, 2]]], ['first', ['where', ARG, inner_pred(rng)], opt_const(rng)],
+                        ['len', ['take', ARG, rng.choice([0, 1, 2])]]])
+    lazy = rng.choice([['where', ARG, inner_pred(rng)], ['where', ARG, inner_pred(rng)], ['select', ARG, inner_sel(rng)],
+                       ['select', ARG, inner_sel(rng)], ['take', ARG, rng.choice([0, 1, 1, 2, -1])], ['range', ['len', ARG]],
+                       ['range', head], ['take', ['where', ARG, inner_pred(rng)], 1],
+                       ['select', ['where', ARG, inner_pred(rng)], inner_sel(rng)]])
+    r = rng.random()
+    if role == 'pred':
+        if r < 0.30:
+            return ['gt', count, small(rng)]
+        if r < 0.55:
+            return ['gt', head, small(rng)]
+        if r < 0.65:
+            return ['eq', head, rng.choice(TWINS)]
+        if r < 0.72:
+            return ['eq', count, rng.choice([0, 1, 2])]
+        if r < 0.80:
+            return rng.choice([count, ['not', count], ARG, ['not', ARG]])
+        if r < 0.88:
+            return lazy                       # (a generator is true whatever it would yield)
+        if r < 0.94:
+            return ['eq', ['str', head], rng.choice(['1', 'true', '1.0', '0'])]
+        return ['gt', ['half', head], 0]
+    if role == 'key':
+        if r < 0.25:
+            return count
+        if r < 0.45:
+            return head
+        if r < 0.55:
+            return ['str', head]
+        if r < 0.65:
+            return ['half', head]
+        if r < 0.75:
+            return ARG
+        if r < 0.83:
+            return ['mod', count, 2]
+        if r < 0.90:
+            return ['pair', count, head]
+        if r < 0.95:
+            return ['gt', head, small(rng)]
+        return lazy                           # (a generator as a key: hashed by identity)
+    if r < 0.34:
+        return lazy
+    if r < 0.50:
+        return head
+    if r < 0.62:
+        return count
+    if r < 0.70:
+        return ['str', head]
+    if r < 0.78:
+        return ['half', head]
+    if r < 0.84:
+        return ['pair', count, head]
+    if r < 0.89:
+        return ['pair', ARG, lazy]
+    if r < 0.93:
+        return ['add', head, small(rng)]
+    if r < 0.96:
+        return ARG
+    return ['mul', ARG, rng.choice([0, 1, 2])]
+
+
 def lam_for(rng, profile, role):
     """a lambda that mostly fits the element profile; role: pred | sel | key"""
     if rng.random() < 0.12:
         profile = rng.choice(PROFILES)
+    if profile in ('nestdup', 'nesttwins'):
+        return nest_lam(rng, role)
+    if profile == 'twins':
+        return nest_lam(rng, role, scalars=True)
+    if profile in ('ints', 'intsnull') and rng.random() < 0.08:
+        return rng.choice([['range', ARG], ['str', ARG], ['half', ARG], ['range', ['mod', ARG, 3]]])
     if profile in ('ints', 'intsnull'):
         base = ARG
     elif profile == 'dicts':
@@ -169,7 +310,22 @@ def lam_for(rng, profile, role):
     return ['eq', base, rng.choice(INTS)]
 
 
-def lam2_for(rng, role):
+def lam2_for(rng, role, profile=None):
+    r = rng.random()
+    if profile in ('nestdup', 'nesttwins') and r < 0.6:
+        # two-argument lambdas over elements that are lists
+        if role == 'pred':
+            return rng.choice([['on1', nest_lam(rng, 'pred')], ['on2', nest_lam(rng, 'pred')], ['eq'], ['const', True]])
+        if role == 'fold':
+            return rng.choice([['plusOn', ['len', ARG]], ['plusOn', ['first', ARG, []]], ['plusOn', ['first', ARG, [0]]],
+                               ['plusOn', ['sum', ARG]], ['on2', nest_lam(rng, 'sel')], ['plus'], ['pair']])
+        return rng.choice([['on1', nest_lam(rng, 'sel')], ['on2', nest_lam(rng, 'sel')], ['pair'], ['fst']])
+    if profile == 'twins' and r < 0.5:
+        if role == 'pred':
+            return rng.choice([['eq'], ['eq'], ['gt'], ['on1', nest_lam(rng, 'pred', True)]])
+        if role == 'fold':
+            return rng.choice([['plus'], ['plus'], ['max'], ['plusOn', ['half', ARG]], ['on2', ['str', ARG]]])
+        return rng.choice([['pair'], ['plus'], ['eq'], ['on1', ['str', ARG]], ['max']])
     r = rng.random()
     if role == 'pred':
         return rng.choice([['gt'], ['gt'], ['eq'], ['eq'], ['const', True], ['const', False], ['on1', ['gt', ARG, 0]],
@@ -290,6 +446,9 @@ def gen_op(rng, name, c):
         a['l'] = S()
     elif name == 'selectMany':
         a['l'] = rng.choice([S(), ARG, ['pair', ARG, ARG], ['mul', ['pair', ARG, ['const', 0]], rng.choice([0, 1, 2])]])
+        if c.profile in ('nestdup', 'nesttwins') and rng.random() < 0.6:
+            a['l'] = rng.choice([S(), ['where', ARG, inner_pred(rng)], ['select', ARG, inner_sel(rng)], ARG,
+                                 ['take', ARG, rng.choice([0, 1, 2])], ['range', ['len', ARG]]])
     elif name in ('orderBy', 'orderByDescending', 'thenBy', 'thenByDescending'):
         a['l'] = rng.choice([K, K, S])()
     elif name == 'attr':
@@ -329,18 +488,22 @@ def gen_op(rng, name, c):
         a['l'] = K()
         a['l2'] = S() if rng.random() < 0.4 else None
         a['l3'] = rng.choice([ARG, ['index', ARG, 0], ['index', ARG, 1], ['index', ARG, -1], ['const', 0], ['pair', ARG, ARG],
-                              ['mul', ARG, 2], ['add', ARG, 1], ['not', ARG], ['eq', ARG, (1, 2)]]) if rng.random() < 0.35 else None
+                              ['mul', ARG, 2], ['add', ARG, 1], ['not', ARG], ['eq', ARG, (1, 2)], ['len', ARG], ['sum', ARG],
+                              ['first', ARG, []], ['where', ARG, ['gt', ARG, 0]], ['select', ARG, ['str', ARG]]]) \
+            if rng.random() < 0.35 else None
     elif name == 'join':
         a['vs'] = tuple(elems(rng, c.profile, rng.randrange(0, 4)))
-        a['f2'], a['g2'] = lam2_for(rng, 'pred'), lam2_for(rng, 'sel')
+        a['f2'], a['g2'] = lam2_for(rng, 'pred', c.profile), lam2_for(rng, 'sel', c.profile)
     elif name == 'repeatTake':
         a['m'] = rng.choice([None, None, 0, 1, 2, 3, -1])
         a['n'] = rng.randrange(0, 5) if (a['m'] is None or a['m'] < 0 or rng.random() < 0.3) else None
     elif name in ('indexOf', 'lastIndexOf', 'contains', 'in', 'containsValue'):
         a['v'] = some_elem(rng, c) if name in ('indexOf', 'lastIndexOf', 'containsValue') else hashable_elem(rng, c)
     elif name in ('aggregate', 'accumulate'):
-        a['f2'] = lam2_for(rng, 'fold')
+        a['f2'] = lam2_for(rng, 'fold', c.profile)
         maybe(rng, a, 'v', lambda: some_elem(rng, c), 0.4)
+        if a['f2'][0] == 'plusOn' and rng.random() < 0.8:
+            a['v'] = rng.choice([0, 0, 1, 0.5])
     elif name == 'mergeWith':
         # half of the time the other dict is a relative of the receiver: shared keys with the same value, with an equal
         # value of another type, with lists that repeat elements, with other values; keys left out and added
@@ -373,7 +536,7 @@ def gen_op(rng, name, c):
         a['ns'] = [rng.choice([0, 1, 1, 1, 2, c.n] if rng.random() < 0.95 else [-1])] + (
             [rng.choice([0, 1, 2])] if rng.random() < 0.3 else [])
     elif name == 'joinRoot':
-        a['f2'], a['g2'] = lam2_for(rng, 'pred'), lam2_for(rng, 'sel')
+        a['f2'], a['g2'] = lam2_for(rng, 'pred', c.profile), lam2_for(rng, 'sel', c.profile)
     elif name == 'concatRoot':
         a['n'] = rng.choice([0, 1, 1, 2, c.n, c.n + 1] if rng.random() < 0.95 else [-1])
     elif name == 'partialThenFull':
@@ -524,6 +687,15 @@ PREF_PROFILE = {
 }
 
 
+# functions that take a selector / predicate: tried on the nested profiles much more often
+LAMBDA_OPS = ['where', 'select', 'selectMany', 'orderBy', 'orderByDescending', 'thenBy', 'thenByDescending', 'groupBy',
+              'distinct', 'toDict', 'join', 'joinRoot', 'takeWhile', 'skipWhile', 'any', 'all', 'indexWhere',
+              'lastIndexWhere', 'accumulate', 'aggregate', 'splitWhere', 'sliceWhere', 'zip', 'first', 'sum', 'max', 'min',
+              'toSet', 'indexOf', 'contains', 'in']
+# what partially consumes a lazy result (the produced prefix before a failing element must be right)
+PARTIAL = ['take', 'take', 'first', 'skip', 'len', 'toList', 'any', 'indexWhere', 'takeWhile']
+
+
 def next_ops(kind):
     if kind in ('lazy', 'list', 'iter', 'seq'):
         return ITER_OPS + (SEQ_OPS if kind in ('list', 'seq') else [])
@@ -574,6 +746,8 @@ def pipeline(rng, fname, max_ops=4):
         prof = 'nested'
     if fname in PREF_PROFILE and rng.random() < 0.75:
         prof = rng.choice(PREF_PROFILE[fname])
+    if ALIASES.get(fname, fname) in LAMBDA_OPS and rng.random() < 0.4:
+        prof = rng.choice(NEST_PROFILES)
     kind, prof, value = data(rng, kind, prof)
     if fname == 'single' and not pre and rng.random() < 0.5 and kind in ('list', 'iter'):
         one = elems(rng, prof, 1)
@@ -597,6 +771,8 @@ def pipeline(rng, fname, max_ops=4):
         cand = next_ops(cur)
         if rng.random() < 0.06:
             cand = ALL_OPS
+        elif cur == 'lazy' and prof in NEST_PROFILES and rng.random() < 0.4:
+            cand = PARTIAL
         if not cand:
             break
         n = rng.choice(cand)
